@@ -81,6 +81,14 @@ type c05sys struct {
 
 const c05Start = 1000
 
+// the destination node reports its own (different) flow start time
+func c05StartOf(gi int) uint32 {
+	if gi == 1 {
+		return 995
+	}
+	return c05Start
+}
+
 // key modes: 0 inter-node pair, 1 single stream (intra), 2 single stream (intra, IPv6)
 func c05Ops() []c05op {
 	var ops []c05op
@@ -232,7 +240,8 @@ func (s *c05sys) Apply(opi int) (v *xplore.Violation) {
 		if op.stream != aggfix.Both {
 			flowType, from = 2, op.stream
 		}
-		rec := aggfix.Record(aggfix.Spec{Key: op.key, FlowType: flowType, Egress: 1, From: from, Start: c05Start, End: end,
+		start := c05StartOf(gi)
+		rec := aggfix.Record(aggfix.Spec{Key: op.key, FlowType: flowType, Egress: 1, From: from, Start: start, End: end,
 			PktTot: tot[0], OctTot: tot[1], RPktTot: tot[2], ROctTot: tot[3], PktDelta: dl[0], OctDelta: dl[1], RPktDelta: dl[2], ROctDelta: dl[3], TCPState: "ESTABLISHED"})
 		if err := s.ap.AggregateMsgByFlowKey(aggfix.Msg(rec)); err != nil {
 			return xplore.V("aggregate-error", "%s: %v", op.name, err)
@@ -244,7 +253,7 @@ func (s *c05sys) Apply(opi int) (v *xplore.Violation) {
 				f.totCand[i] = map[uint64]bool{tot[i]: true}
 				f.totMax[i], f.totLatestEnd[i] = tot[i], tot[i]
 			}
-			thr, rthr := div8(tot[1], end-c05Start), div8(tot[3], end-c05Start)
+			thr, rthr := div8(tot[1], end-start), div8(tot[3], end-start)
 			f.thr, f.rthr = thr, rthr
 			for _, n := range nodes {
 				f.node[n] = c05node{tot: tot, dl: dl, end: end, thr: thr, rthr: rthr, seen: true}
@@ -264,7 +273,7 @@ func (s *c05sys) Apply(opi int) (v *xplore.Violation) {
 				nd := &f.node[n]
 				prev := nd.end
 				if prev == 0 {
-					prev = c05Start
+					prev = start // first report of this node: since the flow start it reports
 				}
 				dt := end - prev
 				thr, rthr = div8(tot[1]-nd.tot[1], dt), div8(tot[3]-nd.tot[3], dt)
